@@ -190,7 +190,11 @@ def inventory_rules(run, db):
             v = r.value
             if isinstance(v, ast.Name) and v.id in names:
                 v = names[v.id]
-            okr = okr and isinstance(v, ast.Attribute) and v.attr == 'real'
+            # somewhere between the inverse transform and the return value the real part is taken (shifts commute with it)
+            has_real = any((isinstance(x, ast.Attribute) and x.attr == 'real' and any(isinstance(c, ast.Call) and ast.unparse(c.func).endswith('ifft2') for c in ast.walk(x.value))) or
+                           (isinstance(x, ast.Call) and ast.unparse(x.func) in ('np.real', 'numpy.real') and any(isinstance(c, ast.Call) and ast.unparse(c.func).endswith('ifft2') for c in ast.walk(x)))
+                           for x in ast.walk(v))
+            okr = okr and has_real
         run.check(okr, 'C15.origin', f.qual, 'real part', 'the image is the REAL PART of the inverse transform (linear in the object, negative samples kept)',
                   '%s does not return `.real` of the inverse transform on every path' % f.name, f.loc())
     # OTF products: the returned array is written by its defining expression and the DC normalisation only
